@@ -28,7 +28,7 @@ def select(ctx, scns, rnd):
         k = (sum(s["src"]["id"].encode()) + 4 * f["blunt"] + 2 * f["pad"] + f["realpsk"] + ctx.seed) % 3
         if s["sni"] == classes[k]:
             out.append(s)
-    out += rnd.sample(by.get("randomized", []), min(60, len(by.get("randomized", []))))
+    out += rnd.sample(by.get("randomized", []), min(48, len(by.get("randomized", []))))
     cust = by.get("custom", [])
     # every kind of added extension under every flag combination at least once, the rest at random
     adds = {}
@@ -38,8 +38,8 @@ def select(ctx, scns, rnd):
             adds.setdefault((s["src"]["m"]["k"], f["blunt"], f["pad"], f["realpsk"]), []).append(s)
     for k in sorted(adds):
         out.append(rnd.choice(adds[k]))
-    out += rnd.sample(cust, min(260, len(cust)))
-    out += rnd.sample(by.get("capture", []), min(60, len(by.get("capture", []))))
+    out += rnd.sample(cust, min(200, len(cust)))
+    out += rnd.sample(by.get("capture", []), min(48, len(by.get("capture", []))))
     return out
 
 
